@@ -117,6 +117,44 @@ def exotic_cases():
             if ik == 'nested-generic' and sk == 'all':
                 pass
             out.append(Case('C01|exotic|%s|%s' % (ik, sk), it.format(A=a, VD='#[educe(Default)] ' if 'Default' in a else ''), {'item': ik, 'traits': sk}, expect='accept', run=False, depth=2))
+    # generic parameters named like the generic parameters the templates declare themselves (`H` for the hasher, `V` / `M` of the Debug method wrapper), on every kind of item
+    gn_items = {
+        'struct': 'pub struct Ty<H, V, M> {{ {A0}pub a: H, pub b: V, pub c: M }}',
+        # (const parameters H and M only: the harness support module exports a type `V`, and a bare `V` in generic-argument position resolves to a type first)
+        'struct-const': 'pub struct Ty<T, const H: usize, const M: usize> {{ {A0}pub a: T, pub b: [u8; H], pub c: [u16; M] }}',
+        'enum': 'pub enum Ty<H, V, M> {{ {VD}A({A0}H, V), B {{ {A0}x: M }} }}',
+        'enum-const': 'pub enum Ty<T, const H: usize, const M: usize> {{ {VD}A({A0}T, [u8; H]), B {{ x: [u8; M] }} }}',
+        'union': 'pub union Ty<H: Copy, V: Copy, M: Copy> {{ pub a: H, {UD}pub b: V, pub c: M }}',
+        'union-const': "pub union Ty<'a, T: Copy, const H: usize, const M: usize> {{ pub a: T, {UD}pub b: [u8; H], pub c: &'a [u8; M] }}",
+    }
+    gn_sets = {'Debug': ('Debug', 'Debug(method(fmt_any))'), 'Hash': ('Hash', 'Hash(method(hash_any))'), 'PartialEq': ('PartialEq, Eq', 'PartialEq(method(eq_any))'),
+               'Ord': ('PartialEq, Eq, PartialOrd, Ord', 'Ord(method(cmp_any))'), 'Clone': ('Clone', 'Clone(method(clone_any))'), 'Default': ('Default(new)', 'Default(expression = make_any())')}
+    gn_union_sets = {'Debug': 'Debug(unsafe)', 'Hash': 'Hash(unsafe)', 'PartialEq': 'PartialEq(unsafe), Eq', 'Clone': 'Copy, Clone', 'Default': 'Default(new)'}
+    for ik, it in gn_items.items():
+        for sk, (tl, fa) in gn_sets.items():
+            for with_attr in (False, True):
+                if ik.startswith('union'):
+                    if sk not in gn_union_sets or with_attr:
+                        continue
+                    tl_ = gn_union_sets[sk]
+                else:
+                    tl_ = tl
+                if ik.startswith('enum') and sk == 'Default' and with_attr:
+                    continue        # (the field attribute would also sit in the variant that is not the default one)
+                if 'const' in ik and sk == 'Default':
+                    continue        # `[u8; H]: Default` holds for literal lengths only; the automatic bound makes the impl conditional, which is fine, but `new()` then needs it too
+                src = '#[derive(Educe)]\n#[educe(%s)]\n%s\n' % (tl_, it.format(A0='#[educe(%s)] ' % fa if with_attr else '', VD='#[educe(Default)] ' if sk == 'Default' else '', UD='#[educe(Default)] ' if sk == 'Default' else ''))
+                out.append(Case('C01|generic-names|%s|%s%s' % (ik, sk, '|attr' if with_attr else ''), src, {'item': ik, 'traits': tl_}, expect='accept', run=False, depth=2))
+    # the extremes of isize as ranks, alone, before another parameter and before a trailing comma (a negative literal that is not the last token reaches the parser as a negation expression)
+    for carrier, tl in (('PartialOrd', 'PartialEq, PartialOrd'), ('Ord', 'PartialEq, Eq, PartialOrd, Ord')):
+        m = 'pcmp_any' if carrier == 'PartialOrd' else 'cmp_any'
+        for k, (r0, r1) in enumerate((('rank = -9223372036854775808', 'rank = 9223372036854775807'), ('rank = -9223372036854775808, method(%s)' % m, 'rank = 9223372036854775807, method(%s)' % m),
+                                      ('rank = -9223372036854775808,', 'rank = 9223372036854775807,'), ('method(%s), rank = -9223372036854775808' % m, 'rank(9223372036854775807), method(%s)' % m),
+                                      ('rank(-9223372036854775808), method(%s)' % m, 'rank = "9223372036854775807"'), ('rank = "-9223372036854775808", method(%s)' % m, 'rank = 0x7fffffffffffffff, method(%s)' % m))):
+            for ik, it in (('sn', 'pub struct Ty {{ {A0}pub a: u8, pub b: u8, {A1}pub c: u8 }}'), ('st', 'pub struct Ty({A0}pub u8, pub u8, {A1}pub u8);'),
+                           ('en', 'pub enum Ty {{ A({A0}u8, u8, {A1}u8), B {{ {A0}x: u8, y: u8, {A1}z: u8 }} }}')):
+                src = '#[derive(Educe)]\n#[educe(%s)]\n%s\n' % (tl, it.format(A0='#[educe(%s(%s))] ' % (carrier, r0), A1='#[educe(%s(%s))] ' % (carrier, r1)))
+                out.append(Case('C01|rank-extremes|%s|%s|%d' % (carrier, ik, k), src, {'item': ik, 'ranks': [r0, r1]}, expect='accept', run=False, depth=2))
     # dynamically sized structs (the last field has a `?Sized` type): every trait that does not need `Self: Sized`, with the attribute forms that touch the tail
     un_items = {
         'generic': 'pub struct Ty<T: ?Sized> {{ {A0}pub a: u8, {A1}pub tail: T }}',
